@@ -171,7 +171,7 @@ func (g *ogen) node(d int, allowFail bool) onode {
 		g.failPct = 0 // one planted failure per program
 		return g.failing()
 	}
-	k := r.Intn(14)
+	k := r.Intn(15)
 	if d <= 0 {
 		k = r.Intn(3)
 	}
@@ -304,6 +304,36 @@ func (g *ogen) node(d int, allowFail bool) onode {
 		body := g.seq(d-1, false)
 		g.p.files[name] = body.src
 		return onode{src: fmt.Sprintf("{{ includeIfExists(%q) }}", name), out: body.out, failOff: -1}
+	case 13:
+		switch r.Intn(6) {
+		case 0: // zero values reached through a map are falsy; nil too
+			return onode{src: "{{range mz}}{{if .}}DEAD{{else}}F{{end}}{{end}}{{range k := mz}}{{if .}}DEAD{{else}}Z{{end}}{{end}}{{range k, v := mz}}{{if v}}DEAD{{else}}V{{end}}{{end}}", out: "FZV", failOff: -1}
+		case 1: // a stored loop value keeps its value
+			key := r.Pick([]string{"a", "b", "c"})
+			name := map[string]string{"a": "na<", "b": "nb", "c": ""}[key]
+			return onode{src: "{{ cap := 0 }}{{range k, v := ms}}{{if k == \"" + key + "\"}}{{ cap = v }}{{end}}{{end}}[{{cap.Name}}]", out: "[" + g.escape(name) + "]", failOff: -1}
+		case 2: // include of a page that extends a layout: the page's own blocks win
+			g.nfile++
+			lay := fmt.Sprintf("/lay%d.jet", g.nfile)
+			page := fmt.Sprintf("/page%d.jet", g.nfile)
+			g.p.files[lay] = "L<{{block body()}}DEADdefault{{end}}>"
+			g.p.files[page] = fmt.Sprintf("{{extends %q}}DEADtext{{block body()}}page:{{.}}{{end}}", lay)
+			return onode{src: fmt.Sprintf("{{include %q ia}}", page), out: "L<page:" + g.E(g.intVals["ia"]) + ">", failOff: -1}
+		case 3: // the catch variable leaves no trace, also when a variable of that name exists
+			v := g.freshVar()
+			return onode{src: fmt.Sprintf("{{ %s := \"kept\" }}{{try}}DEAD{{ nope }}{{catch %s}}c{{end}}[{{%s}}]{{try}}{{ nope }}{{catch sa}}d{{end}}[{{sa}}]", v, v, v),
+				out: "c[" + g.E("kept") + "]d[" + g.escape(g.strVals["sa"]) + "]", failOff: -1}
+		case 4: // isset with empty-string keys and indexes
+			return onode{src: "{{ isset(me[\"\"]) }}{{ isset(me[e]) }}{{ isset(m[\"\"]) }}{{ isset(me.k) }}", out: g.E("true") + g.E("true") + g.E("false") + g.E("true"), failOff: -1}
+		default: // comments and trim markers spanning lines (they must not shift reported lines)
+			switch r.Intn(3) {
+			case 0:
+				return onode{src: "|{* a\nb\n\nc *}", out: "|", failOff: -1}
+			case 1:
+				return onode{src: "|\n\n {{- \"x\" }}", out: "|" + g.E("x"), failOff: -1}
+			}
+			return onode{src: "{{ \"y\" -}} \n\n|", out: g.E("y") + "|", failOff: -1}
+		}
 	case 12: // isset
 		return onode{src: "{{ isset(m.k) }}{{ isset(m.nokey) }}{{ isset(np) }}{{ isset(zero, e, ff) }}{{ isset(st.P.P.A) }}{{ m.nokey | isset }}", out: g.E("true") + g.E("false") + g.E("false") + g.E("true") + g.E("false") + g.E("false"), failOff: -1}
 	}
@@ -339,7 +369,8 @@ func genOracleProgram(r *h.Rand, flavor string) (*prog, *sx.Sexp) {
 	vars.Add(bind("zero", vInt(0))).Add(bind("e", vStr(""))).Add(bind("t", vBool(true))).Add(bind("ff", vBool(false))).
 		Add(bind("n", vNil())).Add(bind("np", vPtr("T1", nil))).Add(bind("nl", nilSliceI())).Add(bind("nm", nilMapI())).
 		Add(bind("el", vSliceI())).Add(bind("li", vSliceT(vInt(3), vInt(0), vInt(7)))).Add(bind("ls", vSliceT(vStr("a<"), vStr(""), vStr("b")))).
-		Add(bind("m", vMapI("k", vStr("v")))).Add(bind("st", vT1(5, "B<", vSliceI(vInt(1)), vMapI("k", vInt(1)), vPtr("T1", inner), vNil())))
+		Add(bind("m", vMapI("k", vStr("v")))).Add(bind("mz", vMapI("k", vInt(0)))).Add(bind("me", vMapI("", vStr("x"), "k", vStr("")))).
+		Add(bind("ms", vMapT("a", vT2("na<", 1, true), "b", vT2("nb", 2, false), "c", vT2("", 0, false)))).Add(bind("st", vT1(5, "B<", vSliceI(vInt(1)), vMapI("k", vInt(1)), vPtr("T1", inner), vNil())))
 	p.vars = vars
 	if flavor == "errors" || flavor == "try" && r.Chance(20) {
 		g.failPct = 15
